@@ -1487,3 +1487,288 @@ pub fn dd(ctx: &mut Ctx) {
     }
     ctx.sample(|| format!("{nh} random histories over 1..4 variables (random order, threads 1/4, apply-cache 1..4096): same operands under min/max/add/sub/mul/div back to back, swapped operands, 0-g, g-0, 1*g, g/1, ite, restrict, constant, var; gc + audits"));
 }
+
+// ==========================================================================================
+// Additions for C05 / C07 / C14 (MTBDD-specific clauses of those properties)
+// ==========================================================================================
+
+/// C05 (MTBDD clause): iterating `Manager::terminals()` (as DOT/DDDMP export do) hands out owned
+/// edges; after dropping them through `drop_edge`, a collection must keep every terminal that a
+/// handle or an inner node still references, and free exactly the others.
+fn terminals_iter_kind<T: Num>(ctx: &mut Ctx, rng: &mut Rng, rounds: usize) {
+    for round in 0..rounds {
+        let n = rng.range(1, 3) as u32;
+        let cfg = Cfg::new(n, (0..n).collect(), 1, 64);
+        let mref = new_mref::<T>(&cfg);
+        let label = format!("mtbdd-{} terminals() round {round} {}", T::NAME, cfg.show());
+        println!("@@{{\"t\":\"case\",\"case\":{}}}", crate::ctx::json_str(&label));
+        let mut live: Vec<(F<T>, Tab<T>)> = (0..rng.range(1, 5))
+            .map(|_| {
+                let t = random_table::<T>(rng, n);
+                (build::<T>(&mref, &t, Builder::Ite), t)
+            })
+            .collect();
+        for step in 0..6 {
+            // garbage: results that are dropped at once
+            for _ in 0..3 {
+                let (a, b) = (rng.usize(live.len()), rng.usize(live.len()));
+                let _ = try_apply::<T>(*rng.pick(&ALL_OPS), &live[a].0, &live[b].0);
+            }
+            // iterate the terminals like the exporters do
+            let listed = mref.with_manager_shared(|m| {
+                let mut k = 0;
+                for e in m.terminals() {
+                    k += 1;
+                    m.drop_edge(e);
+                }
+                k
+            });
+            ctx.eval();
+            let nt = mref.with_manager_shared(|m| m.num_terminals());
+            if listed != nt {
+                ctx.violation(&format!("mtbdd-{}:terminals:iterator-length", T::NAME), format!("{label}: iterated {listed}, num_terminals {nt}"));
+            }
+            mref.with_manager_shared(|m| m.gc());
+            // fresh terminals reuse freed slots
+            let fresh: Vec<F<T>> = (0..4).map(|_| mref.with_manager_shared(|m| F::<T>::constant(m, T::from_r(T::random_value(rng))).unwrap())).collect();
+            for (f, t) in &live {
+                ctx.eval();
+                let it = interp_tab::<T>(f);
+                if it != *t {
+                    ctx.violation(
+                        &format!("mtbdd-{}:terminals:handle-changed-after-terminals-iteration-and-gc", T::NAME),
+                        format!("{label} step {step}: table {} now {}", show_tab::<T>(t), show_tab::<T>(&it)),
+                    );
+                }
+            }
+            drop(fresh);
+            mref.with_manager_shared(|m| m.gc());
+            let want: HashSet<T::R> = live.iter().flat_map(|(_, t)| t.iter().copied()).collect();
+            let nt = mref.with_manager_shared(|m| m.num_terminals());
+            ctx.eval();
+            if nt != want.len() {
+                ctx.violation(
+                    &format!("mtbdd-{}:gc:terminals-remaining", T::NAME),
+                    format!("{label} step {step}: {nt} terminals stored, {} distinct values referenced by live handles", want.len()),
+                );
+            }
+            if live.len() > 1 && rng.bool() {
+                let k = rng.usize(live.len());
+                live.swap_remove(k);
+            }
+            ctx.distinct((T::NAME, "terminals-iter", round, step));
+        }
+        ctx.count("terminal_iterations", 6);
+    }
+}
+
+pub fn terminals_iter(ctx: &mut Ctx) {
+    let mut rng = ctx.rng(0xC05_7);
+    let rounds = ctx.by_tier(20, 300);
+    terminals_iter_kind::<I64>(ctx, &mut rng, rounds);
+    terminals_iter_kind::<F64>(ctx, &mut rng, rounds);
+    ctx.sample(|| "MTBDD: build functions, create garbage, iterate Manager::terminals() dropping each edge, gc, create fresh constants: live handles keep their value tables; num_terminals == distinct referenced values".into());
+}
+
+/// C07 (MTBDD clause): operations whose results are bare, otherwise unreferenced terminals, run
+/// while another thread collects; under the cooperative scheduler (yield points inside gc) and
+/// free-running with injected delays.
+fn conc_kind<T: Num>(ctx: &mut Ctx, rng: &mut Rng, scenarios: usize, scheduled: bool) {
+    use crate::sched::{self, Sched, Strategy};
+    use std::sync::Arc;
+    for s in 0..scenarios {
+        let n = rng.range(1, 3) as u32;
+        let cfg = Cfg { n, order: (0..n).collect(), threads: 1, cache: 1 << rng.range(2, 8), inner: 1 << 12, terms: 1 << 12 };
+        let mref = new_mref::<T>(&cfg);
+        let label = format!("mtbdd-{} concurrent scenario {s} scheduled={scheduled} {}", T::NAME, cfg.show());
+        println!("@@{{\"t\":\"case\",\"case\":{}}}", crate::ctx::json_str(&label));
+        // base functions f and complements g = c - f, so that f + g is the bare terminal c
+        let mut base: Vec<(F<T>, Tab<T>)> = Vec::new();
+        for _ in 0..2 {
+            let t: Tab<T> = (0..1usize << n).map(|_| *rng.pick(&T::small_palettes()[0])).collect();
+            // partner g = c - f (pointwise), so that f + g is the bare terminal c, referenced by nobody else
+            let c = T::random_value(rng);
+            let g: Tab<T> = t.iter().map(|&x| T::r_op(Op::Sub, c, x)).collect();
+            base.push((build::<T>(&mref, &t, Builder::Ite), t));
+            base.push((build::<T>(&mref, &g, Builder::Ite), g));
+        }
+        let nworkers = 2usize;
+        let sched_obj: Option<Arc<Box<Sched>>> =
+            if scheduled {
+                let strat = if s % 2 == 0 {
+                    Strategy::Random { seed: rng.next(), inv_p: *rng.pick(&[2u64, 4, 16]) }
+                } else {
+                    Strategy::Pct { seed: rng.next(), depth: rng.range(1, 4) as u32, est_len: 6000 }
+                };
+                Some(Arc::new(Sched::new(nworkers + 1, strat)))
+            } else {
+                None
+            };
+        if !scheduled {
+            sched::delay::install(rng.next(), *rng.pick(&[2u64, 8, 32]));
+        }
+        let seeds: Vec<u64> = (0..nworkers).map(|_| rng.next()).collect();
+        let done = Arc::new(std::sync::atomic::AtomicBool::new(false));
+        let remaining = Arc::new(std::sync::atomic::AtomicUsize::new(nworkers));
+        let body = || {
+            let mut hs = Vec::new();
+            for tid in 0..nworkers {
+                let (done, remaining) = (done.clone(), remaining.clone());
+                let base: Vec<(F<T>, Tab<T>)> = base.iter().map(|(f, t)| (f.clone(), t.clone())).collect();
+                let mut tctx = ctx.child();
+                let sched_obj = sched_obj.clone();
+                let seed = seeds[tid];
+                let lbl = label.clone();
+                hs.push(std::thread::spawn(move || {
+                    let mut rng = Rng::new(seed);
+                    if let Some(s) = &sched_obj {
+                        s.enter(tid);
+                    }
+                    let mut pool = base;
+                    let steps = if sched_obj.is_some() { 24 } else { 1500 };
+                    for step in 0..steps {
+                        let (mut a, mut b) = (rng.usize(pool.len()), rng.usize(pool.len()));
+                        let mut op = *rng.pick(&ALL_OPS);
+                        if rng.chance(1, 2) {
+                            // f + (c - f): the result is a bare terminal nobody else references
+                            a = 2 * rng.usize(2);
+                            b = a + 1;
+                            op = Op::Add;
+                        }
+                        let want = tab_op::<T>(op, &pool[a].1, &pool[b].1);
+                        let Ok(r) = try_apply::<T>(op, &pool[a].0, &pool[b].0) else { continue };
+                        // sometimes let the result die right away, allocate fresh terminals (slot reuse) and
+                        // recompute (cache hit on a result that may have been collected in between)
+                        let r = if rng.chance(2, 3) {
+                            drop(r);
+                            let _fresh: Vec<F<T>> = (0..rng.range(0, 3))
+                                .filter_map(|_| pool[0].0.with_manager_shared(|m, _| F::<T>::constant(m, T::from_r(T::random_value(&mut rng))).ok()))
+                                .collect();
+                            match try_apply::<T>(op, &pool[a].0, &pool[b].0) {
+                                Ok(r) => r,
+                                Err(_) => continue,
+                            }
+                        } else {
+                            r
+                        };
+                        let got = interp_tab::<T>(&r);
+                        tctx.eval();
+                        if got != want {
+                            tctx.violation(
+                                &format!("mtbdd-{}:concurrent:{}:wrong-table", T::NAME, op.name()),
+                                format!("{lbl} thread {tid} step {step}: {}({}, {}) = {} want {}", op.name(), show_tab::<T>(&pool[a].1), show_tab::<T>(&pool[b].1), show_tab::<T>(&got), show_tab::<T>(&want)),
+                            );
+                        } else if !is_const(&want) {
+                            tctx.distinct((T::NAME, "conc", op, &want));
+                        }
+                        if pool.len() < 8 {
+                            pool.push((r, want));
+                        } else {
+                            let k = 4 + rng.usize(pool.len() - 4);
+                            pool[k] = (r, want);
+                        }
+                    }
+                    if let Some(s) = &sched_obj {
+                        s.leave(tid);
+                    }
+                    if remaining.fetch_sub(1, std::sync::atomic::Ordering::AcqRel) == 1 {
+                        done.store(true, std::sync::atomic::Ordering::Relaxed);
+                    }
+                    (pool, tctx)
+                }));
+            }
+            // collector thread
+            {
+                let done = done.clone();
+                let mref = mref.clone();
+                let sched_obj = sched_obj.clone();
+                hs.push(std::thread::spawn(move || {
+                    if let Some(s) = &sched_obj {
+                        s.enter(nworkers);
+                    }
+                    if sched_obj.is_some() {
+                        for _ in 0..40 {
+                            mref.with_manager_shared(|m| m.gc());
+                        }
+                    } else {
+                        // free running: collect until the workers are done
+                        while !done.load(std::sync::atomic::Ordering::Relaxed) {
+                            mref.with_manager_shared(|m| m.gc());
+                            std::thread::yield_now();
+                        }
+                    }
+                    if let Some(s) = &sched_obj {
+                        s.leave(nworkers);
+                    }
+                    (Vec::new(), Ctx::new("C07", "gc-thread", crate::Tier::Quick, 0, 0, 1))
+                }));
+            }
+            hs.into_iter().map(|h| h.join()).collect::<Vec<_>>()
+        };
+        let results = match &sched_obj {
+            Some(s) => sched::with_scheduler(s, body),
+            None => body(),
+        };
+        if !scheduled {
+            sched::delay::uninstall();
+        }
+        if let Some(s) = &sched_obj {
+            let o = s.outcome();
+            if let Some(d) = o.deadlock {
+                ctx.violation(&format!("mtbdd-{}:deadlock-at-yield-points", T::NAME), format!("{label}: {d}"));
+                ctx.finish();
+                std::process::exit(0);
+            }
+            ctx.distinct((T::NAME, "sig", o.signature));
+            ctx.count("schedules", 1);
+            ctx.count("context_switches", o.switches);
+        }
+        let mut all: Vec<(F<T>, Tab<T>)> = Vec::new();
+        for r in results {
+            match r {
+                Ok((pool, tctx)) => {
+                    ctx.absorb(tctx);
+                    all.extend(pool);
+                }
+                Err(_) => ctx.violation(&format!("mtbdd-{}:concurrent:thread-panicked", T::NAME), format!("{label}: {}", crate::ctx::last_panic_loc())),
+            }
+        }
+        // quiescent: fresh constants, then every handle must still denote its table; canonicity; exact gc
+        let fresh: Vec<F<T>> = (0..6).filter_map(|_| mref.with_manager_shared(|m| F::<T>::constant(m, T::from_r(T::random_value(rng))).ok())).collect();
+        for (f, t) in &all {
+            ctx.eval();
+            let it = interp_tab::<T>(f);
+            if it != *t {
+                ctx.violation(&format!("mtbdd-{}:concurrent:handle-changed-function", T::NAME), format!("{label}: {} now {}", show_tab::<T>(t), show_tab::<T>(&it)));
+            }
+        }
+        for i in 0..all.len() {
+            for j in 0..i {
+                ctx.eval();
+                if (all[i].0 == all[j].0) != (all[i].1 == all[j].1) {
+                    ctx.violation(&format!("mtbdd-{}:concurrent:canonicity", T::NAME), format!("{label}: tables {} / {}", show_tab::<T>(&all[i].1), show_tab::<T>(&all[j].1)));
+                }
+            }
+        }
+        drop(fresh);
+        drop(all);
+        drop(base);
+        mref.with_manager_shared(|m| m.gc());
+        let (ni, nt) = mref.with_manager_shared(|m| (m.num_inner_nodes(), m.num_terminals()));
+        ctx.eval();
+        if ni != 0 || nt != 0 {
+            ctx.violation(&format!("mtbdd-{}:concurrent:nodes-left-after-dropping-everything", T::NAME), format!("{label}: {ni} inner nodes, {nt} terminals"));
+        }
+        ctx.count("mtbdd_concurrent_scenarios", 1);
+    }
+}
+
+pub fn conc(ctx: &mut Ctx) {
+    let mut rng = ctx.rng(0xC07_A);
+    let n = ctx.by_tier(30, 300);
+    conc_kind::<I64>(ctx, &mut rng, n, true);
+    conc_kind::<F64>(ctx, &mut rng, n / 2, true);
+    conc_kind::<I64>(ctx, &mut rng, n / 4, false);
+    conc_kind::<F64>(ctx, &mut rng, n / 8, false);
+    ctx.sample(|| "MTBDD: 2 worker threads x 24 operations (results dropped and recomputed, many bare terminals) + 1 thread calling gc() 12 times; cooperative scheduler (yield points inside gc, incl. before the terminal sweep) and free-running with injected delays".into());
+}
